@@ -63,6 +63,8 @@ def check(ctx):
              '(v) the same maps at general points with delta = 1e-8: tight oracle against the double-double forward quotient of the evaluated points in units of 4 eps|f|/delta (complex 12), half of the points within [-0.1,0.1] where 2x differs from 2x+delta by more than a unit; '
              '(vi) affine maps mixing O(1) entries with small non-zero entries +-2^-8..2^-24 at every delta = 2^-k (result in units of 2^-24, exact expectation M[i][j]: no entry may be lost), quadratic maps at tiny points 2^-12..2^-20, '
              'two-term maps x_p^2 - x_q^2 with coefficient 1 or i, complex affine / quadratic maps with genuinely complex coefficients at exactly real / purely imaginary / partly real points where the value is exactly real / imaginary (the imaginary part of the derivative must survive); '
+             '(vii) LARGE OFFSETS: f = c + Mx with integer M and constants c_r = +-m 2^K up to the point where one ulp of f_r equals delta (K = 51 - s for delta = 2^-s) and on a grid below, every value verified exactly representable in integer arithmetic by the harness: the Jacobian equals M exactly; '
+             '(viii) coordinates that coincide with the step: +-delta, +-2delta, +-delta/2, complex (+-delta, +-0), (0, +-delta), (+-delta, +-delta), in random positions, every delta of the grid, on the affine, quadratic, smooth and tight-oracle families; '
              'special points cycle through every family: exact +0.0/-0.0 coordinates, all negative, all equal, maps that ignore some variables (perturbing them leaves f bit-for-bit unchanged). One event per call; every event is non-trivial (n >= 1 coordinates perturbed); wide (m < n), tall and square shapes all occur; '
              'distinct = distinct (problem, points, result) tuples.',
         trusted=['harness closures (jacobian.rs): record the argument, evaluate the map', 'scaling of exact dyadic floats to integers (BAD when not exact)', 'TLC', 'Jacobian.tla operators'])
